@@ -3,6 +3,7 @@
 package corebgp
 
 import (
+	"net"
 	"net/netip"
 	"time"
 )
@@ -234,4 +235,40 @@ func Verif_C20_concurrent_registry() {
 	verifQuiesce()
 	verifAssert("no-goroutine-left", verifGoroutines() == 0)
 	verifCover("concurrent-registry")
+}
+
+// Serve after Close returns ErrServerClosed also when the server was never serving when Close was called
+func Verif_C20_serve_after_close_on_a_server_never_served() {
+	verifEngineOnly()
+	verifNote("fresh server, optionally one active peer added before or after Close (symbolic); Close; then Serve (with a listener): returns ErrServerClosed at once, starts no peer (no dial, no goroutine left), the registry still answers; a second Close returns")
+	s, _ := NewServer(netip.AddrFrom4([4]byte{10, 0, 0, 1}))
+	ds := &dialScript{outcomes: []dialOutcome{dialPendingThenFail}, mk: func(int) *symConn { return newStagedConn("out") }}
+	verifDial = ds
+	ra := netip.AddrFrom4([4]byte{192, 0, 2, 1})
+	cfg := PeerConfig{RemoteAddress: ra, LocalAS: 65000, RemoteAS: 65001}
+	when := verifChoose("addpeer", 3) // 0: none, 1: before Close, 2: after Close
+	if when == 1 {
+		verifAssert("addpeer-before-close", s.AddPeer(cfg, newMonPlugin()) == nil)
+	}
+	s.Close()
+	if when == 2 {
+		verifAssert("addpeer-after-close", s.AddPeer(cfg, newMonPlugin()) == nil)
+	}
+	lis := newSymListener()
+	done := make(chan error, 1)
+	go func() { done <- s.Serve([]net.Listener{lis}) }()
+	verifQuiesce()
+	select {
+	case err := <-done:
+		verifAssert("serve-after-close-returns-errserverclosed", err == ErrServerClosed)
+	default:
+		verifAssert("serve-after-close-returns-at-once", false)
+	}
+	verifAssert("closed-server-starts-no-peer", ds.attempts == 0)
+	_, gerr := s.GetPeer(ra)
+	verifAssert("registry-still-answers", (gerr == nil) == (when != 0))
+	s.Close()
+	verifQuiesce()
+	verifAssert("no-goroutine-left", verifGoroutines() == 0)
+	verifCover("serve-after-close")
 }
